@@ -20,14 +20,16 @@
     * a clean restart, a process kill, and a crash at any point inside the
       rewrite of fields.idx leave the schema (and the readable data) exactly as
       it was; the shard opens again;
-    * a crash in the middle of the last append to fields.idxl (that operation is
-      then not acknowledged) keeps every type that was on record before that
-      operation — except the fields of the measurement that operation was
-      dropping — and invents nothing: every recorded type afterwards was on record
-      before or after that operation;
-    * after `drop m` was acknowledged no field of `m` is on record, other
-      measurements are untouched, and no restart brings a field of `m` back (until
-      a later write mentions `m` again);
+    * a crash in the middle of the append to fields.idxl of a write or of a drop
+      (that operation is then never acknowledged), at any byte, keeps every type
+      that was on record — except, for a drop, the fields of the measurement
+      being dropped — and invents nothing: every type on record afterwards was on
+      record before or is carried by a point of the interrupted write; the data
+      readable afterwards is the data readable before (minus the data of the
+      measurement being dropped);
+    * a drop of `m` leaves the other measurements untouched and adds nothing; once
+      it has removed the fields of `m` from the record, no restart brings a field of
+      `m` back (until a later write mentions `m` again);
     * operations that only look (schema dump, read, snapshot) change nothing.
 -/
 import Influx.Proto
@@ -62,12 +64,8 @@ def hasMeas (s : Schema) (m : String) : Bool := s.any (fun e => e.1.1 == m)
 structure Mem where
   /-- observed after the last operation -/
   cur : Seen := { sch := [], store := some [] }
-  /-- observed before the last operation -/
-  prev : Seen := { sch := [], store := some [] }
   /-- measurements dropped (acknowledged) and not mentioned by a write since -/
   dropped : List String := []
-  /-- the last operation was `drop m` -/
-  lastDrop : Option String := none
 
 /-- checks common to every observation -/
 def seenFails (a : Seen) : Option String :=
@@ -77,11 +75,17 @@ def seenFails (a : Seen) : Option String :=
   | some d => if typedBy a.sch d then none else some "stored-type-differs:"
 
 def restartName : Restart → String
-  | .clean => "clean" | .kill => "kill" | .torn => "torn" | .inSnapshot p => p
+  | .clean => "clean" | .kill => "kill" | .inSnapshot p => p
+
+/-- a point of the batch carries field `k` with type `t` -/
+def carries (batch : List Point) (k : FKey) (t : FType) : Bool :=
+  batch.any (fun p => p.meas == k.1 && p.fields.any (fun f => f.name == k.2 && f.ty == t && f.name != timeName))
+
+def storeOf (a : Seen) : Store := a.store.getD []
 
 def stepFails (M : Mem) : Step10 → Option String × Mem
   | .write batch res after =>
-    let M' : Mem := { cur := after, prev := M.cur, lastDrop := none,
+    let M' : Mem := { cur := after,
                       dropped := M.dropped.filter (fun m => !batch.any (fun p => p.meas == m)) }
     let nConf := batch.countP (conflictsWith M.cur.sch)
     let r :=
@@ -94,41 +98,54 @@ def stepFails (M : Mem) : Step10 → Option String × Mem
     let r := r.or (if subSchema M.cur.sch after.sch then none else some "field-type-changed:")
     (r, M')
   | .drop m ok after =>
-    if !ok then (some "drop-failed:", { M with cur := after, prev := M.cur, lastDrop := none }) else
-    let M' : Mem := { cur := after, prev := M.cur, lastDrop := some m,
-                      dropped := if M.dropped.contains m then M.dropped else m :: M.dropped }
+    if !ok then (some "drop-failed:", { M with cur := after }) else
+    -- the schema of `m` counts as removed by this drop iff no field of `m` is on record now
+    let removed := !hasMeas after.sch m
+    let M' : Mem := { cur := after,
+                      dropped := if removed then (if M.dropped.contains m then M.dropped else m :: M.dropped)
+                                 else M.dropped.filter (· != m) }
     let r := seenFails after
-    let r := r.or (if hasMeas after.sch m then some "dropped-measurement-present:" else none)
-    let others := M.cur.sch.filter (fun e => e.1.1 != m)
-    let r := r.or (if sameSchema others after.sch then none else some "drop-changed-others:")
+    let r := r.or (if sameSchema (M.cur.sch.filter (fun e => e.1.1 != m)) (after.sch.filter (fun e => e.1.1 != m))
+                   then none else some "drop-changed-others:")
+    let r := r.or (if subSchema after.sch M.cur.sch then none else some "drop-invented-type:")
     (r, M')
   | .restart kind opened after =>
-    let M' : Mem := { M with cur := after, prev := M.cur, lastDrop := none }
+    let M' : Mem := { M with cur := after }
     if !opened then (some ("shard-does-not-open:" ++ restartName kind), M') else
-    let unack : Option String := if kind == .torn then M.lastDrop else none
-    let back := M.dropped.filter (fun m => some m != unack && hasMeas after.sch m)
     let r := seenFails after
-    let r := r.or (if back.isEmpty then none else some ("dropped-measurement-back:" ++ restartName kind))
-    let r := r.or (
-      if kind == .torn then
-        let keep := M.prev.sch.filter (fun e => some e.1.1 != unack)
-        if !subSchema keep after.sch then some "torn-restart-lost-type:"
-        else if !after.sch.all (fun e => M.prev.sch.lookup e.1 == some e.2 || M.cur.sch.lookup e.1 == some e.2)
-          then some "torn-restart-invented-type:" else none
-      else if !sameSchema M.cur.sch after.sch then some ("restart-schema-changed:" ++ restartName kind)
-      else match M.cur.store, after.store with
-        | some b, some a => if sameStore b a then none else some ("restart-data-changed:" ++ restartName kind)
-        | _, _ => none)
-    -- after a torn restart the unacknowledged operation may or may not have happened
-    let M'' : Mem := if kind == .torn then { M' with dropped := M.dropped.filter (fun m => some m != unack || !hasMeas after.sch m) } else M'
-    (r, M'')
+    let r := r.or (if M.dropped.any (hasMeas after.sch) then some ("dropped-measurement-back:" ++ restartName kind) else none)
+    let r := r.or (if sameSchema M.cur.sch after.sch then none else some ("restart-schema-changed:" ++ restartName kind))
+    let r := r.or (if sameStore (storeOf M.cur) (storeOf after) then none else some ("restart-data-changed:" ++ restartName kind))
+    (r, M')
+  | .tornWrite batch opened after =>
+    let dropped' := M.dropped.filter (fun m => !batch.any (fun p => p.meas == m))
+    let M' : Mem := { cur := after, dropped := dropped' }
+    if !opened then (some "shard-does-not-open:torn-write", M') else
+    let r := seenFails after
+    let r := r.or (if dropped'.any (hasMeas after.sch) then some "dropped-measurement-back:torn-write" else none)
+    let r := r.or (if subSchema M.cur.sch after.sch then none else some "torn-restart-lost-type:write")
+    let r := r.or (if after.sch.all (fun e => M.cur.sch.lookup e.1 == some e.2 || carries batch e.1 e.2) then none
+                   else some "torn-restart-invented-type:write")
+    let r := r.or (if sameStore (storeOf M.cur) (storeOf after) then none else some "restart-data-changed:torn-write")
+    (r, M')
+  | .tornDrop m opened after =>
+    -- the drop may or may not have taken effect: `m` counts as dropped iff no field of it is left
+    let dropped' := if hasMeas after.sch m then M.dropped.filter (· != m)
+                    else if M.dropped.contains m then M.dropped else m :: M.dropped
+    let M' : Mem := { cur := after, dropped := dropped' }
+    if !opened then (some "shard-does-not-open:torn-drop", M') else
+    let r := seenFails after
+    let r := r.or (if (M.dropped.filter (· != m)).any (hasMeas after.sch) then some "dropped-measurement-back:torn-drop" else none)
+    let r := r.or (if subSchema (M.cur.sch.filter (fun e => e.1.1 != m)) after.sch then none else some "torn-restart-lost-type:drop")
+    let r := r.or (if subSchema after.sch M.cur.sch then none else some "torn-restart-invented-type:drop")
+    let r := r.or (if sameStore ((storeOf M.cur).filter (fun e => e.1.1 != m)) (storeOf after) then none
+                   else some "restart-data-changed:torn-drop")
+    (r, M')
   | .look after =>
     let r := seenFails after
     let r := r.or (if sameSchema M.cur.sch after.sch then none else some "look-changed-schema:")
-    let r := r.or (match M.cur.store, after.store with
-      | some b, some a => if sameStore b a then none else some "look-changed-data:"
-      | _, _ => none)
-    (r, { M with cur := after, lastDrop := M.lastDrop })
+    let r := r.or (if sameStore (storeOf M.cur) (storeOf after) then none else some "look-changed-data:")
+    (r, { M with cur := after })
 
 def firstFailure : Mem → List Step10 → Option String
   | _, [] => none
